@@ -175,9 +175,14 @@ def drives(quick):
         dict(name="4term_two_idle", dev="cross4", cur={"top": 1.5, "bottom": -1.5, "source": 0.0, "drain": 0.0}, A=0.3, opts=dict(dt_init=1e-2, adaptive=False)),
         dict(name="4term_timedep_partial", dev="cross4", cur="timedep4", A=0.1, opts=dict(dt_init=5e-3, adaptive=False)),
     ]
+    # "converted from the user's units": prefixes of the current unit and of the device's length unit that do not cancel
+    d += [
+        dict(name="units_nA_uT", dev="bar3", cur={"source": 700.0, "drain": -300.0, "top": -400.0}, A=300.0, opts=dict(dt_init=1e-2, adaptive=False, current_units="nA", field_units="uT")),
+        dict(name="units_mA_um", dev="bar", cur={"source": 0.004, "drain": -0.004}, A=0.2, opts=dict(dt_init=1e-2, adaptive=False, current_units="mA")),
+        dict(name="units_uA_nm_device", dev="bar3", dev_kw=dict(length_units="nm", scale=1000.0), cur={"source": 3.0, "drain": -1.0, "top": -2.0}, A=0.0, opts=dict(dt_init=1e-2, adaptive=False)),
+    ]
     if not quick:
         d += [
-            dict(name="units_nA_uT", dev="bar3", cur={"source": 700.0, "drain": -300.0, "top": -400.0}, A=300.0, opts=dict(dt_init=1e-2, adaptive=False, current_units="nA", field_units="uT")),
             dict(name="no_current_ring", dev="ring", cur=None, A=0.6, opts=dict(dt_init=1e-2, adaptive=False)),
             dict(name="union_unbiased", dev="union", cur=None, A=0.4, opts=dict(dt_init=5e-3, dt_max=3e-2, adaptive=True, adaptive_window=3)),
         ]
@@ -198,8 +203,14 @@ def run_level(ctx, stop_first=False):
     from tdgl.finite_volume.operators import build_divergence
 
     first = None
+    devs = {}  # one device object per kind: successive solves share it (nothing may carry over from an earlier solve)
     for dr in drives(ctx.quick):
-        dev = zoo.make_device(dr["dev"], ctx.rng, max_edge_length=1.0)
+        dkey = (dr["dev"], repr(sorted(dr.get("dev_kw", {}).items())))
+        if dkey not in devs:
+            devs[dkey] = zoo.make_device(dr["dev"], ctx.rng, max_edge_length=1.0, **dr.get("dev_kw", {}))
+        else:
+            ctx.count("solves_on_a_reused_device")
+        dev = devs[dkey]
         D = build_divergence(dev.mesh)
         cur = timedep_currents if dr["cur"] == "timedep" else (timedep4_currents if dr["cur"] == "timedep4" else dr["cur"])
         cu = dr["opts"].get("current_units", "uA")
